@@ -165,7 +165,7 @@ def gen_jobs(rng, n):
 def run(tier, seed):
     rng = random.Random(seed * 295075153 + 6)
     mcs = [core.mc("MC_AceText"), core.mc("MC_Names", workers=4), core.mc("MC_PortSem")]
-    jobs = gen_jobs(rng, 6000 if tier == "quick" else 200000)
+    jobs = gen_jobs(rng, 6000 if tier == "quick" else 60000)
     ev_lists = core.pmap(exec_job, jobs)
     events = [e for evs in ev_lists for e in evs]
     verdicts, vstats = core.validate("Trace_C06", events)
@@ -176,7 +176,7 @@ def run(tier, seed):
         out.append(dict(clause=v["clause"], features=dict(cls=j["cls"], plat=j["kw"].get("platform")), case=j, events=evs))
     # ACE level: the C06.* clauses of Trace_C01 on the C01 input grammar
     rng2 = random.Random(seed * 122949829 + 61)
-    n_ace = 4000 if tier == "quick" else 150000
+    n_ace = 4000 if tier == "quick" else 40000
     ajobs = []
     for t in range(1, n_ace + 1):
         plat = rng2.choice(["ios", "nxos"])
